@@ -22,6 +22,7 @@ MC = os.path.join(SPECDIR, "MCGcImpl.tla")
 SIM = os.path.join(SPECDIR, "MCGcSim.tla")
 SHAPES = os.path.join(SPECDIR, "MCGcShapes.tla")
 IMPLSHAPES = os.path.join(SPECDIR, "MCGcImplShapes.tla")
+FULL = os.path.join(SPECDIR, "MCGcImplFull.tla")
 RES_CLASS = "finalizer hands out a handle on a node of the unreachable set (resurrection)"
 
 
@@ -503,7 +504,7 @@ class Runner:
                 self.res_class_hits += 1
                 self.ck.failure(RES_CLASS, {"history": exp, "failure": f, "observed": r, "short": short(exp)})
                 continue
-            if done >= 8:      # enough distinct reports; the rest is counted
+            if done >= 12:     # enough distinct reports; the rest is counted
                 self.ck.add("failures_not_shrunk")
                 continue
             done += 1
@@ -549,9 +550,11 @@ def shape_history(rec):
     return exp
 
 
-def run_tlc_job(module, cfg, workers, tags, timeout=2400, **kw):
+def run_tlc_job(module, cfg, workers, tags, timeout=3000, sink=None, **kw):
+    """Runs TLC; tagged records go to `sink` (a callable) as they are printed, or are returned as a list."""
     # development aid only (never set by a registered command): reuse TLC's output for an unchanged spec + config
     cache = os.environ.get("VERIF_C09_CACHE")
+    cp = None
     if cache:
         import hashlib
         hsh = hashlib.sha1()
@@ -559,17 +562,30 @@ def run_tlc_job(module, cfg, workers, tags, timeout=2400, **kw):
             if f.endswith(".tla") or f == cfg:
                 hsh.update(open(os.path.join(SPECDIR, f), "rb").read())
         hsh.update(json.dumps(kw, sort_keys=True).encode())
-        cp = os.path.join(cache, f"{cfg}-{hsh.hexdigest()[:12]}.json")
+        cp = os.path.join(cache, f"{cfg}-{hsh.hexdigest()[:12]}.ndjson")
         if os.path.exists(cp):
-            d = json.load(open(cp))
-            return d["got"], d["r"]
+            got = []
+            with open(cp) as f:
+                r = json.loads(f.readline())
+                for line in f:
+                    (sink or got.append)(json.loads(line))
+            return got, r
     got = []
-    r = vlib.run_tlc(module, cfg, workers=workers, timeout=timeout,
-                     on_tagged=lambda t, o: got.append(o) if t in tags else None, **kw)
+    keep = [] if cp else None
+
+    def on(t, o):
+        if t in tags:
+            (sink or got.append)(o)
+            if keep is not None:
+                keep.append(o)
+    r = vlib.run_tlc(module, cfg, workers=workers, timeout=timeout, on_tagged=on, **kw)
     vlib.tlc_must_pass(r, cfg)
-    if cache:
+    if cp:
         os.makedirs(cache, exist_ok=True)
-        json.dump({"got": got, "r": {k: v for k, v in r.items() if k != "tagged"}}, open(cp, "w"))
+        with open(cp, "w") as f:
+            f.write(json.dumps({k: v for k, v in r.items() if k != "tagged"}) + "\n")
+            for o in keep:
+                f.write(json.dumps(o) + "\n")
     return got, r
 
 
@@ -601,6 +617,62 @@ def dedup_prefix(hists):
     return out
 
 
+class Replayer:
+    """Consumer thread: takes histories from a queue in chunks and replays them while TLC keeps producing."""
+
+    def __init__(self, runner, chunk=20000):
+        import queue
+        import threading
+        self.runner, self.chunk = runner, chunk
+        self.q = queue.Queue(maxsize=8)
+        self.buf, self.label = [], None
+        self.fails, self.counts, self.err = [], {}, None
+        self.samples = {}
+        self.t = threading.Thread(target=self.work, daemon=True)
+        self.t.start()
+
+    def work(self):
+        while True:
+            item = self.q.get()
+            if item is None:
+                return
+            label, hists = item
+            if self.err is not None:
+                continue
+            try:
+                f = self.runner.run_batch(hists, label)
+                self.counts[label] = self.counts.get(label, 0) + len(hists)
+                self.samples.setdefault(label, short(hists[len(hists) // 2]))
+                res = [x for x in f if x[1]["res_class"]]
+                oth = [x for x in f if not x[1]["res_class"]]
+                self.runner.res_class_hits += max(0, len(res) - 3)     # the first three are reported individually
+                self.fails += res[:3] + oth[:200]
+                if len(oth) > 200:
+                    self.runner.ck.add("failures_not_shrunk", len(oth) - 200)
+            except Exception as e:      # surfaced by close()
+                self.err = e
+
+    def put(self, label, h):
+        if self.label is not None and label != self.label:
+            self.flush()
+        self.label = label
+        self.buf.append(h)
+        if len(self.buf) >= self.chunk:
+            self.flush()
+
+    def flush(self):
+        if self.buf:
+            self.q.put((self.label, self.buf))
+            self.buf = []
+
+    def close(self):
+        self.flush()
+        self.q.put(None)
+        self.t.join()
+        if self.err is not None:
+            raise self.err
+
+
 def run(tier, replay=None):
     from concurrent.futures import ThreadPoolExecutor
     ck = vlib.Check("C09", tier, "model_checking", replay)
@@ -619,73 +691,79 @@ def run(tier, replay=None):
 
     selftest(runner)
     quick = tier == "quick"
-    sfx = "quick" if quick else "thorough"
     pool = ThreadPoolExecutor(max_workers=2)
     # 1. model gate (invariants + refinement GcImpl => GcSpec), in the background while replays are generated
     gate_cfgs = [(MC, "MCGcImpl_gate_quick.cfg")] if quick else \
-                [(MC, "MCGcImpl_gate_thorough.cfg"), (MC, "MCGcImpl_gate_res.cfg"), (IMPLSHAPES, "MCGcImplShapes_gate.cfg")]
+                [(FULL, "MCGcImplFull_a.cfg"), (MC, "MCGcImpl_gate_thorough.cfg"), (MC, "MCGcImpl_gate_res.cfg"),
+                 (IMPLSHAPES, "MCGcImplShapes_gate.cfg")]
 
     def gates():
         out = []
         for mod, cfg in gate_cfgs:
-            r = vlib.run_tlc(mod, cfg, workers=4, timeout=2400, coverage=not quick)
-            vlib.tlc_must_pass(r, "GcImpl/" + cfg)
+            _, r = run_tlc_job(mod, cfg, 4, (), coverage=(mod == FULL))
             vlib.log(f"[gate] {cfg}: {r['distinct']} distinct states, {r['states']} transitions, {r['wall']:.0f}s")
-            out.append(r)
+            out.append((cfg, r))
         return out
     gate_f = pool.submit(gates)
-    fails = []
-    counts = {}
-    # 2. history-exhaustive replays, 3. transition-exhaustive EDGE replays, 4. shape families
-    jobs = [("hist", MC, f"MCGcImpl_hist_{sfx}.cfg", ("REPLAY",)),
-            ("edge", MC, f"MCGcImpl_edge_{sfx}.cfg", ("EDGE",)),
-            ("shapes", SHAPES, f"MCGcShapes_{sfx}.cfg", ("SHAPE",))]
-    futs = []
-    nxt = pool.submit(run_tlc_job, jobs[0][1], jobs[0][2], 4, jobs[0][3])
+    rep = Replayer(runner)
     model_states = model_trans = 0
-    for i, (label, mod, cfg, tags) in enumerate(jobs):
-        got, r = nxt.result()
-        if i + 1 < len(jobs):
-            nxt = pool.submit(run_tlc_job, jobs[i + 1][1], jobs[i + 1][2], 4, jobs[i + 1][3])
+    # 2. history-exhaustive replays, 3. transition-exhaustive EDGE replays, 4. shape families
+    if quick:
+        jobs = [("hist", MC, "MCGcImpl_hist_quick.cfg", "REPLAY"), ("edge", MC, "MCGcImpl_edge_quick.cfg", "EDGE"),
+                ("shapes", SHAPES, "MCGcShapes_quick.cfg", "SHAPE")]
+    else:
+        jobs = [("hist", MC, "MCGcImpl_hist_thorough.cfg", "REPLAY"), ("shapes", SHAPES, "MCGcShapes_thorough.cfg", "SHAPE"),
+                ("edge", MC, "MCGcImpl_edge_thorough_a.cfg", "EDGE"), ("edge", MC, "MCGcImpl_edge_thorough_b.cfg", "EDGE")]
+    for label, mod, cfg, tag in jobs:
+        n0 = [0]
+
+        def sink(o, label=label, n0=n0):
+            n0[0] += 1
+            rep.put(label, shape_history(o) if label == "shapes" else o)
+        _, r = run_tlc_job(mod, cfg, 4, (tag,), sink=sink)
         model_states += r["distinct"]
         model_trans += r["states"]
-        vlib.log(f"[{label}] {len(got)} records from {r['distinct']} states in {r['wall']:.0f}s")
-        hists = [shape_history(x) for x in got] if label == "shapes" else got
-        counts[label] = len(hists)
-        fails += runner.run_batch(hists, label)
-        if hists:
-            ck.sample(short(hists[len(hists) // 2]))
+        vlib.log(f"[{label}] {cfg}: {n0[0]} records from {r['distinct']} states in {r['wall']:.0f}s")
     # 5. seeded long histories (thorough)
+    longest = 0
     if not quick:
         sd = vlib.seed()
         for cfg, num, depth in (("MCGcSim_noarm_a.cfg", 1500, 800), ("MCGcSim_noarm_b.cfg", 60, 6000),
-                                ("MCGcSim_noarm_c.cfg", 2, 40000), ("MCGcSim_a.cfg", 1000, 800), ("MCGcSim_b.cfg", 40, 6000),
-                                ("MCGcSim_c.cfg", 2, 40000)):
+                                ("MCGcSim_a.cfg", 1000, 800), ("MCGcSim_b.cfg", 40, 6000),
+                                ("MCGcSim_noarm_c.cfg", 1, 60000), ("MCGcSim_c.cfg", 1, 60000)):
             got, r = run_tlc_job(SIM, cfg, 1, ("REPLAY",), simulate=num, depth=depth, tseed=sd)
             hists = dedup_prefix(got)
+            longest = max([longest] + [len(h) for h in hists])
             vlib.log(f"[sim] {cfg}: {len(hists)} histories (max {max(len(h) for h in hists)} ops) in {r['wall']:.0f}s")
-            counts["sim"] = counts.get("sim", 0) + len(hists)
-            counts["sim_longest"] = max(counts.get("sim_longest", 0), max(len(h) for h in hists))
-            fails += runner.run_batch(hists, "sim")
-    runner.report(fails)
+            for h in hists:
+                rep.put("sim", h)
+    rep.close()
+    runner.report(rep.fails)
+    for label, sm in rep.samples.items():
+        ck.sample(f"{label}: {sm}")
     states = trans = 0
     tlc_cov = {}
-    for r in gate_f.result():
+    for cfg, r in gate_f.result():
         states += r["distinct"]
         trans += r["states"]
         ck.cov.setdefault("checker_cmd", r["cmd"])
-        if not quick:
-            never = check_coverage(r)
-            tlc_cov[r["cmd"]] = "all collector and mutator actions taken" if not never else never
+        if cfg.startswith("MCGcImplFull"):
+            taken = check_coverage(r)
+            missing = [a for a in ACTIONS if taken.get(a, 0) == 0]
+            if missing:
+                raise vlib.ToolError(f"TLC coverage: actions of GcImpl never taken in {cfg}: {missing}")
+            tlc_cov = taken
     ck.cov.update(states=states, transitions=trans, emission_states=model_states,
                   traces_validated_against_impl=runner.replayed, evaluations=runner.judge.evals,
                   distinct_nontrivial=runner.nontrivial, resurrection_class_failures=runner.res_class_hits,
-                  replays=counts, exhaustive=True,
+                  replays=rep.counts, exhaustive=True,
                   rule="non-trivial = a history with a collection that freed, or retained without a mutator handle, a node "
                        "that lies on a cycle of heap edges or is the value of a live ephemeron / weak-map entry")
     if tlc_cov:
         ck.cov["tlc_coverage"] = tlc_cov
-    floor = 5000 if quick else 50000
+    if longest:
+        ck.cov["longest_history_ops"] = longest
+    floor = 5000 if quick else 100000
     if runner.nontrivial < floor:
         raise vlib.ToolError(f"vacuity guard: only {runner.nontrivial} non-trivial histories (< {floor})")
     ck.assumptions += ["histories need a mutator handle on every node they name (nodes only reachable through the heap are "
